@@ -173,5 +173,6 @@ CONTRACTS.update({
                  " and any(" + ORIG + " in n.inputs for n in " + INNER + ")"
                  " and all(" + ORIG + " not in n.inputs or bool(n.has_signature_default_for(" + ORIG + ")) for n in " + INNER + "))"],
         modifies=[],
+        pure=True,
     ),
 })
